@@ -197,6 +197,8 @@ class EffectDomain(DefaultDomain):
     def binop(self, node, left, right):
         okl, pl = self._py(left)
         okr, pr = self._py(right)
+        if okl and okr and isinstance(pl, (bool, int)) and isinstance(pr, (bool, int)) and isinstance(node.op, (ast.BitOr, ast.BitAnd, ast.BitXor)):
+            return self._abs(pl | pr if isinstance(node.op, ast.BitOr) else pl & pr if isinstance(node.op, ast.BitAnd) else pl ^ pr)
         if okl and okr and isinstance(pl, bool) and isinstance(pr, (bool, int)) or okl and okr and isinstance(pr, bool) and isinstance(pl, int):
             # booleans in arithmetic are 0 / 1
             if isinstance(node.op, ast.Add):
@@ -827,7 +829,7 @@ class EffectDomain(DefaultDomain):
 
     def _exc_isinstance(self, exc_name, type_names, fr):
         """Is an exception of the class called ``exc_name`` an instance of one of ``type_names``?  None = not decidable."""
-        if exc_name in type_names or "BaseException" in type_names:
+        if exc_name in type_names or "BaseException" in type_names or "object" in type_names:
             return True
         if "Exception" in type_names and exc_name not in self.NON_EXCEPTION:
             return True
@@ -1479,7 +1481,7 @@ class EffectDomain(DefaultDomain):
                 got = [r for r in interp.eval(call.args[1], st, fr) if r.kind == "val"]
                 vals_ = got[0].value if len(got) == 1 else None
                 cand = list(vals_[1:]) if isinstance(vals_, tuple) and vals_[:1] == ("tuple",) else [vals_]
-                tnames = [v[1].split(".")[-1] for v in cand] if all(isinstance(v, tuple) and v[:1] in (("excclass",), ("ctorref",)) for v in cand) else [None]
+                tnames = [v[1].split(".")[-1] for v in cand] if all(isinstance(v, tuple) and (v[:1] in (("excclass",), ("ctorref",)) or v == ("builtin", "object")) for v in cand) else [None]
             if all(tnames):
                 out = []
                 known = True
